@@ -217,8 +217,9 @@ fn drive_engine(id: &str, flavour: &str, rng: &mut Rng, maxops: u64) -> Runner {
     };
     let real = flavour == "engine-realfeed" || (flavour == "engine" && rng.chance(10));
     let fees = rng.chance(45);
-    let toll = if fees { *rng.pick(&[0i64, 1, 5, 10]) } else { 0 };
-    let spread = if fees { *rng.pick(&[0i64, 1, 5, 10]) } else { 0 };
+    let hifee = fees && rng.chance(12);
+    let toll = if hifee { *rng.pick(&[60i64, 100, 50, 33]) } else if fees { *rng.pick(&[0i64, 1, 5, 10]) } else { 0 };
+    let spread = if hifee { *rng.pick(&[70i64, 100, 67, 2]) } else if fees { *rng.pick(&[0i64, 1, 5, 10]) } else { 0 };
     let fluct = if flavour == "fluct" { *rng.pick(&[1i64, 2, 5]) } else { *rng.pick(&[0i64, 0, 0, 0, 5]) };
     let plr = match flavour {
         "liq" => *rng.pick(&[0i64, 0, 25, 25, 50, 100]),
@@ -230,7 +231,7 @@ fn drive_engine(id: &str, flavour: &str, rng: &mut Rng, maxops: u64) -> Runner {
     let caps = flavour == "caps" || rng.chance(8);
     let hcap = if caps { *rng.pick(&[0i64, 1000, 2500, 5000]) } else { 0 };
     let oicap = if caps { *rng.pick(&[0i64, 30000, 60000, 100000]) } else { 0 };
-    let nv = if flavour == "multi" { 2 } else { 1 };
+    let nv = if flavour == "multi" || flavour == "gates" { 2 } else { 1 };
     // pool variants: the standard price-10 pool, and pools at / below price 1 (x*y kept <= 1.2e9 for TLC)
     let (px, py) = *rng.pick(&[(100000i64, 10000i64), (100000, 10000), (100000, 10000), (100000, 10000),
                                (30000, 30000), (20000, 50000), (12000, 90000), (250000, 4000),
@@ -263,7 +264,26 @@ fn drive_engine(id: &str, flavour: &str, rng: &mut Rng, maxops: u64) -> Runner {
         let has = p["exists"].as_bool().unwrap_or(false) && num(&p["size"]) != 0;
         let roll = rng.below(100);
         let x = num(&post["vamm"][&v]["st"]["x"]);
-        if roll < 38 || (!has && roll < 55) {
+        if has && rng.chance(6) {
+            // flatten through the reversal path: an opposite order of exactly the position's value
+            // (the engine keeps a zero-size record); sometimes one unit either side
+            let delta = *rng.pick(&[0i64, 0, 0, 1, -1]);
+            let nn = num(&p["notional"]);
+            let fee = nn * toll / d + nn * spread / d;
+            r.op(&json!({"k": "flatten", "s": t, "v": v, "delta": delta, "funds": if native { fee + rng.range(0, 2) * 0 } else { 0 }}));
+        } else if flavour == "gates" && rng.chance(14) {
+            // administrative switches in the middle of a history
+            match rng.below(9) {
+                0 => r.op(&json!({"k": "tx", "c": "engine", "m": "set_pause", "s": "owner", "a": {"pause": rng.chance(60)}})),
+                1 | 2 => r.op(&json!({"k": "tx", "c": &v, "m": "set_open", "s": "owner", "a": {"open": rng.chance(40)}})),
+                3 => r.op(&json!({"k": "tx", "c": "ifund", "m": "remove_vamm", "s": "owner", "a": {"vamm": v}})),
+                4 => r.op(&json!({"k": "tx", "c": "ifund", "m": "add_vamm", "s": "owner", "a": {"vamm": v}})),
+                5 => r.op(&json!({"k": "tx", "c": "ifund", "m": "shutdown_vamms", "s": "owner", "a": {}})),
+                6 => r.op(&json!({"k": "tx", "c": "engine", "m": *rng.pick(&["add_whitelist", "remove_whitelist"]), "s": "owner", "a": {"address": t}})),
+                7 => r.op(&json!({"k": "tx", "c": &v, "m": "update_config", "s": "owner", "a": {"oicap": *rng.pick(&[0i64, 20000, 60000]), "hcap": *rng.pick(&[0i64, 1000, 4000])}})),
+                _ => r.op(&json!({"k": "query", "c": "ifund", "q": "is_vamm", "a": {"vamm": v}})),
+            };
+        } else if roll < 38 || (!has && roll < 55) {
             // open / increase / reduce / reverse
             let lev = match rng.below(12) {
                 0 => 100,
@@ -332,7 +352,8 @@ fn drive_engine(id: &str, flavour: &str, rng: &mut Rng, maxops: u64) -> Runner {
         } else if roll < 50 || (flavour == "fluct" && has && roll < 68) {
             let who = if has { t } else { *rng.pick(&TRADERS[..3]) };
             let limit = if rng.chance(8) { rng.range(1, 50000) } else { 0 };
-            r.op(&json!({"k": "tx", "c": "engine", "m": "close_position", "s": who, "a": {"vamm": v, "limit": limit}}));
+            let extra = if native && rng.chance(6) { rng.range(1, 200) } else { 0 };
+            r.op(&json!({"k": "tx", "c": "engine", "m": "close_position", "s": who, "a": {"vamm": v, "limit": limit}, "funds": extra}));
         } else if roll < 55 {
             let amt = match rng.below(4) { 0 => rng.range(0, 3), _ => rng.range(1, 3000) };
             r.op(&json!({"k": "tx", "c": "engine", "m": "deposit_margin", "s": t, "a": {"vamm": v, "amount": amt},
@@ -340,7 +361,8 @@ fn drive_engine(id: &str, flavour: &str, rng: &mut Rng, maxops: u64) -> Runner {
         } else if roll < 62 {
             let m = num(&p["margin"]);
             let amt = match rng.below(4) { 0 => rng.range(0, 3), 1 => m, _ => rng.range(1, m.max(2)) };
-            r.op(&json!({"k": "tx", "c": "engine", "m": "withdraw_margin", "s": t, "a": {"vamm": v, "amount": amt}}));
+            let extra = if native && rng.chance(6) { rng.range(1, 200) } else { 0 };
+            r.op(&json!({"k": "tx", "c": "engine", "m": "withdraw_margin", "s": t, "a": {"vamm": v, "amount": amt}, "funds": extra}));
         } else if roll < 76 {
             // liquidation attempt on any trader holding a position (prefer one that exists)
             let mut cands: Vec<&str> = vec![];
@@ -350,12 +372,13 @@ fn drive_engine(id: &str, flavour: &str, rng: &mut Rng, maxops: u64) -> Runner {
                 }
             }
             let target = if cands.is_empty() || rng.chance(5) { t } else { *rng.pick(&cands) };
-            let by = if rng.chance(70) { "liq" } else { *rng.pick(&TRADERS[..3]) };
+            let by = if rng.chance(65) { "liq" } else if rng.chance(30) { target } else { *rng.pick(&TRADERS[..3]) };
             if rng.chance(50) {
                 r.op(&json!({"k": "query", "c": "engine", "q": "margin_ratio", "a": {"vamm": v, "trader": target}}));
             }
             let limit = if rng.chance(6) { rng.range(1, 50000) } else { 0 };
-            r.op(&json!({"k": "tx", "c": "engine", "m": "liquidate", "s": by, "a": {"vamm": v, "trader": target, "limit": limit}}));
+            let extra = if native && rng.chance(8) { rng.range(1, 200) } else { 0 };
+            r.op(&json!({"k": "tx", "c": "engine", "m": "liquidate", "s": by, "a": {"vamm": v, "trader": target, "limit": limit}, "funds": extra}));
         } else if roll < 82 || (flavour == "funding" && roll < 90) {
             r.op(&json!({"k": "tx", "c": "engine", "m": "pay_funding", "s": *rng.pick(&["liq", "tr1", "stranger"]), "a": {"vamm": v}}));
         } else if roll < 93 {
@@ -364,7 +387,11 @@ fn drive_engine(id: &str, flavour: &str, rng: &mut Rng, maxops: u64) -> Runner {
             } else {
                 *rng.pick(&[1i64, 15, 15, 15, 60, 900, 901, 1800, 3600, 3601])
             };
-            r.op(&json!({"k": "block", "dh": 1, "dt": dt}));
+            if rng.chance(7) {
+                r.op(&json!({"k": "block", "dh": 1, "dt": 0, "dns": *rng.pick(&[400_000_000u64, 999_999_999, 1])}));
+            } else {
+                r.op(&json!({"k": "block", "dh": 1, "dt": dt}));
+            }
         } else if roll < 97 {
             let base_price = px * d / py;
             let price = (base_price * *rng.pick(&[60i64, 80, 90, 100, 100, 110, 125, 150]) / 100).max(1);
